@@ -95,12 +95,24 @@ for _v, _t in (('default', 'None'), ('given', 'IdGen')):
              ensures=['nfa_wf(result)', 'result.epsilon == N.epsilon', 'result.q0 not in N.Q', 'result.Q == N.Q | {result.q0}', 'result.Sigma == N.Sigma', 'result.F == N.F | {result.q0}',
                       'step(result, result.q0, N.epsilon) == {N.q0}',
                       'all(implies(b != N.epsilon, step(result, result.q0, b) == set_empty()) for b in atoms())',
-                      'all((y in step(result, q, b)) == (y in step(N, q, b) or (b == N.epsilon and q in N.F and y == N.q0)) for q in N.Q for b in atoms() for y in atoms())'],
+                      'all((y in step(result, q, b)) == (y in step(N, q, b) or (b == N.epsilon and q in N.F and y == N.q0)) for q in N.Q for b in atoms() for y in atoms())',
+                      'star_struct(N, result)',
+                      # the property itself, over words: w is accepted iff it is in the Kleene star of L(N) (NL(N): the words over N.Sigma accepted by N,
+                      # as an element of the language algebra; nfa_acc is nfa_accepts under an opaque name)
+                      'all(implies(over(N.Sigma, w), nfa_acc(result, w) == mem(w, lstar(NL(N)))) for w in allwords())',
+                      'all(nfa_acc(result, w) == nfa_accepts(result, w) for w in allwords())'],
+             asserts=['nfa_wf(result)',
+                      'all((y in step(result, result.q0, N.epsilon)) == (y == N.q0) for y in atoms())',
+                      'all(implies(b != N.epsilon, y not in step(result, result.q0, b)) for b in atoms() for y in atoms())',
+                      'all(implies(q in N.Q, (y in step(result, q, b)) == (y in step(N, q, b) or (b == N.epsilon and q in N.F and y == N.q0))) for q in atoms() for b in atoms() for y in atoms())',
+                      'all((q in result.F) == (q in N.F or q == result.q0) for q in atoms())',
+                      'star_struct(N, result)'],
              modifies=['id_generator'], types={'delta': DT}, loops={1: {'ghost': 'doneF', 'invariant': [
                  'q0 not in N.Q', 'Q == N.Q | {q0}', 'F == N.F | {q0}',
                  'all((y in lookup(delta, (q, b))) == (y in step(N, q, b) or (b == N.epsilon and q in doneF and y == N.q0)) for q in atoms() for b in atoms() for y in atoms())',
                  'all(implies((q, b) in delta, q in Q and (b in N.Sigma or b == N.epsilon)) for q in atoms() for b in atoms())']}},
-             theories=[], props=['C18', 'C19', 'C06'], note='structural contract; language compared exactly by the bounded stand-in')
+             theories=['word', 'wordx', 'nfa', 'nfax', 'regexp', 'nfastar'], props=['C18', 'C19', 'C06'],
+             note='exact transition relation; the language statement follows by lemmas star-eclo (closure across the back edges), star-sim (states after reading w), Sstar-char (split positions, right unfolding of the star) and star-lang')
 contract(M, 'nfa_concatenation', {'N1': 'NFA', 'N2': 'NFA'}, returns='NFA',
          requires=['nfa_wf(N1)', 'nfa_wf(N2)', 'N1.Q.isdisjoint(N2.Q)', 'N1.epsilon not in N2.Sigma'],
          ensures=_OPS + ['result.q0 == N1.q0', 'result.Q == N1.Q | N2.Q', 'result.Sigma == N1.Sigma | N2.Sigma', 'result.F == N2.F',
